@@ -149,6 +149,66 @@ def expected(a):
     return exp, isf, keys, effect, integral
 
 
+KW_ITEM = re.compile(r"[ \t]*(name|ref)[ \t]*=[ \t]*(?:'[^'\\\n]*'|(\d+))[ \t]*")
+PY_NUM = re.compile(r'[+-]?(?:(?:0+|[1-9]\d*)|(?:\d+\.\d*|\.\d+)(?:[eE][+-]?\d+)?|\d+[eE][+-]?\d+)')
+
+
+def kw_modelled(kw):
+    """own reading of the keyword texts the model claims to understand"""
+    if kw.strip(' \t') == '':
+        return True
+    seen, pos = set(), 0
+    while True:
+        m = KW_ITEM.match(kw, pos)
+        if not m or m.group(1) in seen or (m.group(1) == 'name' and m.group(2) is not None):
+            return False
+        if m.group(2) is not None and not re.fullmatch(r'0+|[1-9]\d*', m.group(2)):
+            return False
+        seen.add(m.group(1))
+        pos = m.end()
+        if pos == len(kw):
+            return True
+        if kw[pos] != ',':
+            return False
+        pos += 1
+
+
+def eval_unmodelled(line, ev):
+    """is the keyword / parameter text of this line outside what the model evaluates?"""
+    parts = line.rstrip('\n').split(';')
+    if len(parts) > 2 and not kw_modelled(';'.join(parts[2:])):
+        return True
+    if ev and len(parts) > 1:
+        p = parts[1].strip()
+        quoted = p.startswith("'") and p.endswith("'") and "'" not in p[1:-1]
+        if not quoted and p != 'None' and not PY_NUM.fullmatch(p):
+            return True
+    return False
+
+
+def reference_line(a, use_float):
+    """canonical answer for a written reaction without tail: exact sums (the model) or IEEE sums in written order (Python)"""
+    out, net, integral = [], {}, True
+    for nm, side, inact in (('reac', 'reac', False), ('prod', 'prod', False), ('inact_reac', 'reac', True), ('inact_prod', 'prod', True)):
+        tot, isf = {}, {}
+        for t in a[side]:
+            if t['inact'] != inact:
+                continue
+            if t['form'] == 'dec':
+                v = float('%d.%s' % (t['n'], t['frac'])) if use_float else Fraction('%d.%s' % (t['n'], t['frac']))
+            else:
+                v = t['n']
+            tot[t['key']] = tot.get(t['key'], 0) + v
+            isf[t['key']] = isf.get(t['key'], False) or t['form'] == 'dec'
+        for k, v in tot.items():
+            integral = integral and Fraction(v).denominator == 1
+            net[k] = net.get(k, 0) + (Fraction(v) if nm.endswith('prod') else -Fraction(v))
+        out.append('[' + ','.join(esc(k) + ':' + ('f' if isf[k] else 'i') + show_rat(Fraction(tot[k])) for k in sorted(tot)) + ']')
+    if not any(v != 0 for v in net.values()) or not integral:
+        return 'ValueError:check'
+    return 'ok ' + ' '.join(out) + ' - n-'
+
+
 NUM_TOKEN = re.compile(r'[^\s+()*;=>-]+')
 
 
@@ -193,10 +253,15 @@ class C12(Property):
         '"parameters to the printed precision": the theorems hand the parser exactly the printed parameter TEXT; that a %.3g text denotes the value '
         'rounded to 3 significant digits is C20\'s theorem, the composition (eval of the text) is checked by the oracle only '
         '(from_string(r.string(with_param=True)).param == float("%.3g" % p), parameters over 30 decades)',
-        '"; keyword=value" parts: theorems show they do not disturb the stoichiometry/parameter and are handed on verbatim; their evaluation (eval) is oracle-only (name read back)',
+        '"; keyword=value" parts: eval is not modelled; the model recognises only name=/ref= texts (keyword_name_read) and answers Unmodelled for every other keyword text '
+        '(checks=(), several parts that do not re-join, malformed text); parse_written is stated for lines with at most the parameter part; what Python does with the other keyword '
+        'texts (e.g. `A -> A; 1; checks=()` returns the reaction) is neither modelled nor claimed by the oracle',
         '"a copy compares equal to its original": theorem copy_eq over a copy that goes through the constructor\'s _init_stoich with the container kind (dict/OrderedDict/set) modelled; '
         'that the copy shares no mutable state, keeps name/ref/data and the class is oracle-only; NaN parameters violate equality (finding 7, parameter equality is reflexive in the model)',
-        'decimal coefficients: theorem for texts "n.ddd" with n >= 1 and at most 15 digits (exact value); exponent forms (1e2), leading-dot forms, signs, '
+        'decimal coefficients: the model adds exact rationals, Python adds doubles; parse_written carries the hypothesis floatSafe (dyadic fractions, totals < 2^38) under which both agree '
+        '(IEEE exactness is an argument in the docstring, not a Lean proof); outside it (1.2 A + 1.4 A + 1.4 A) the harness checks the model against the exact and Python against the IEEE reference; '
+        'the single-reaction print/parse theorems are stated over the eval-free core toReactionCore (the system theorem goes through toReaction true); '
+                'decimal coefficients: theorem for texts "n.ddd" with n >= 1 and at most 15 digits (exact value); exponent forms (1e2), leading-dot forms, signs, '
         'underscores and the float rounding of sums of non-dyadic decimals are correspondence-only',
         'keys that contain the arrow token (e.g. C=O in an equilibrium line) or ";" are excluded from parse_written (witness: token_in_key_missplit_witness); '
         'named reactions / named systems do not round-trip (witnesses); both are outside the theorems\' hypotheses',
@@ -350,7 +415,30 @@ class C12(Property):
         l[i], l[j] = l[j], l[i]
         return ''.join(l)
 
+    def _nd_case(self, rng):
+        """repeated species with non-dyadic decimal coefficients: exact and IEEE sums may differ"""
+        token = rng.choice(['->', '='])
+        fr = lambda: rng.choice(['1', '2', '3', '4', '6', '7', '9', '15', '35', '05'])
+        term = lambda k: {'key': k, 'n': rng.randint(1, 3), 'form': 'dec', 'frac': fr(), 'inact': False}
+        a = {'token': token, 'reac': [term(rng.choice('AB')) for _ in range(rng.randint(2, 5))],
+             'prod': [{'key': 'Zz', 'n': rng.randint(1, 3), 'form': rng.choice(['plain', 'plain', 'dec']), 'frac': '0', 'inact': False}]}
+        return {'kind': 'raw', 'op': 'parse', 'line': write_line(a), 'token': token, 'allowed': None, 'eval': False, 'nd_ast': a}
+
+    def _evalish_case(self, rng):
+        """keyword / parameter texts that reach eval: several keyword parts, constructor keywords, malformed expressions"""
+        token = '->'
+        st = rng.choice(['A -> B', 'A -> A', 'A B', '2 A -> 3 B', 'A -> B -> C'])
+        tail = rng.choice(["; 1; name='a'; ref='b'", "; 1; checks=()", "; 1; )(", "; 1/0", "; 1; param=3", ";", "; 1; name='a;b'", "; 1; name='x', ref=12",
+                           "; None; ref='r'", "; 1; dont_check={'any_effect'}", "; 2*3", "; 1; inact_reac={'Q': 1}", "; 1; name = 'sp ace' ", "; 1; ",
+                           "; 1; name='a', name='b'", "; 1; ref=007", "; 1e3; ref=0", "; .5"])
+        return {'kind': 'raw', 'op': 'parse', 'line': st + tail, 'token': token, 'allowed': None, 'eval': rng.choice([False, True, 'default'])}
+
     def _raw_case(self, rng, tier):
+        r0 = rng.random()
+        if r0 < 0.04:
+            return self._nd_case(rng)
+        if r0 < 0.07:
+            return self._evalish_case(rng)
         r = rng.random()
         token = '->' if rng.random() < 0.6 else '='
         allowed = None
@@ -671,7 +759,8 @@ class C12(Property):
     def model_case(self, c):
         k = c.get('kind')
         if k in ('written', 'raw'):
-            return {'op': 'parse', 'line': c['line'], 'token': c['token'], 'allowed': c['allowed'], 'eval': c.get('eval', False)}
+            return {'op': 'parse', 'line': c['line'], 'token': c['token'], 'allowed': c['allowed'], 'eval': c.get('eval', False),
+                    'nd_ast': c.get('nd_ast')}
         if k == 'print':
             m = self._mobj(c)
             m.update({'op': 'print', 'arrow': c['arrow'], 'with_param': c['with_param'], 'with_name': c['with_name'], 'pval': c.get('pval'),
@@ -772,7 +861,8 @@ class C12(Property):
                     r = self._parse_real(c['line'], c['token'], c['allowed'], c.get('eval', False))
                 except Exception as e:
                     return err_tag(e)
-                return 'ok ' + show_rxn(r)
+                nm = 'n-' if r.name is None else ('n"%s"' % esc(r.name) if isinstance(r.name, str) else 'n=' + repr(r.name))
+                return 'ok ' + show_rxn(r) + ' ' + nm
             if op == 'multiplicity':
                 try:
                     return 'ok ' + show_dict(parsing._parse_multiplicity(c['strings'], c['allowed']))
@@ -861,14 +951,15 @@ class C12(Property):
                 justified = any(fl and (v != int(v) or abs(v) >= 10 ** 16) for o in ([c] + c.get('rxns', []))
                                 for side in ('reac', 'prod', 'inact_reac', 'inact_prod') for _, v, fl in o.get(side, []))
             else:
-                justified = unmodelled_justified(text)
+                lines = text.split('\n') if c['op'] == 'system_parse' else [text]
+                justified = unmodelled_justified(text) or any(eval_unmodelled(l, bool(c.get('eval'))) for l in lines)
             self._unmodelled[c['op']] = self._unmodelled.get(c['op'], 0) + 1
             return justified and sum(self._unmodelled.values()) <= max(25, self._compared // 100)
         if io == mo:
             return True
-        if c['op'] in ('parse', 'system_parse') and io in ('SyntaxError', 'NameError', 'TypeError') \
-                and any(l.count(';') >= 2 for l in c.get('line', c.get('text', '')).split('\n')):
-            return True            # eval("dict(<third part>)") failed: evaluation of keyword parts is not modelled
+        if c.get('nd_ast') is not None:
+            # non-dyadic decimal sums: the model adds exact rationals, Python adds doubles; each side must equal ITS reference
+            return mo == reference_line(c['nd_ast'], False) and io == reference_line(c['nd_ast'], True)
         if c['op'] in ('parse', 'system_parse'):
             # compare reaction by reaction; the parameter is text in the model and a value (or None) in the real code
             if not (io.startswith('ok ') and mo.startswith('ok ')):
@@ -876,14 +967,23 @@ class C12(Property):
             ia, ma = io[3:].split(' ; '), mo[3:].split(' ; ')
             if len(ia) != len(ma):
                 return False
+            if c['op'] == 'parse':
+                def cut(x):
+                    i = len(x) - 3 if x.endswith(' n-') else max(x.rfind(' n"'), x.rfind(' n='))
+                    return x[:i], x[i + 1:]
+                ia, ma = [' ; '.join(ia)], [' ; '.join(ma)]
+                (ia0, na), (ma0, nb) = cut(ia[0]), cut(ma[0])
+                if na != nb:
+                    return False
+                ia, ma = [ia0], [ma0]
             for a, b in zip(ia, ma):
                 # four dictionaries (no spaces inside: keys never contain an ASCII space) and the parameter
                 fa, fb = a.split(' ', 4), b.split(' ', 4)
                 if len(fa) != 5 or len(fb) != 5 or not self._same_dicts(' '.join(fa[:4]), ' '.join(fb[:4])):
                     return False
                 vi, vm = fa[4], fb[4]
-                if vi == '-':
-                    if vm.startswith('sym"') or (c.get('eval') and vm not in ('-', '"None"')):
+                if vi == '-' or vm == '-':
+                    if vi != vm:
                         return False
                     continue
                 if vi.startswith('sym"') or vm.startswith('sym"'):
